@@ -71,7 +71,9 @@ func c02(c *Ctx) {
 	r.Rule("R02.B", "builtin ids equal the CRC-32 of their TL lines", 7)
 	r.Rule("R02.S", "string headers: tiny/large switch at 254, 1- and 4-byte headers, 4-byte alignment, same constants in writer and reader (tabulated)", 4)
 	r.Rule("R02.M", "byte strings of 2^24 bytes or more are refused; 2^24-1 is accepted", 1)
+	r.Rule("R02.X", "the flags word is written / read at the position FlagIndex() says: the PutUint / PopUint of the struct walk is reachable only through the equal edge of a comparison with the FlagIndex() result", 2)
 	tr := an.NewTracer()
+	c02FlagsPosition(c, tr, "R02.X")
 
 	// ---- R02.L ----------------------------------------------------------------------------------
 	pp, err := c.Pop()
@@ -436,4 +438,56 @@ func sliceStores(ms *ssa.MakeSlice, atom func(ssa.Value) (int64, bool)) (map[int
 		}
 	}
 	return out, true
+}
+
+// c02FlagsPosition: R02.X.  R02.L proves FlagIndex() = position of flags:# in the schema line for every struct; this rule
+// ties the walk to that number on both sides.
+func c02FlagsPosition(c *Ctx, tr *an.Tracer, rule string) {
+	r := c.R
+	for _, side := range []struct{ recv, fn, prim, key string }{
+		{"*Encoder", "encodeStruct", "(*" + load.TLPkg + ".Encoder).PutUint", "flags-position:encoder"},
+		{"*Decoder", "decodeObject", "(*" + load.TLPkg + ".Decoder).PopUint", "flags-position:decoder"},
+	} {
+		f := c.fn(rule, load.TLPkg, side.recv, side.fn)
+		if f == nil {
+			continue
+		}
+		var fi []ssa.Value
+		for _, cs := range an.Calls(f) {
+			if cs.Common.IsInvoke() && cs.Common.Method.Name() == "FlagIndex" && cs.Value() != nil {
+				fi = append(fi, cs.Value())
+			}
+		}
+		if len(fi) == 0 {
+			r.Violate(rule, side.key, c.pos(f.Pos()), side.fn+" does not call FlagIndex(): the flags word cannot be at the position the schema gives it for types whose flags are not first")
+			continue
+		}
+		var prims []ssa.Instruction
+		for _, cs := range an.CallsNamed(f, side.prim) {
+			prims = append(prims, cs.Instr)
+		}
+		if len(prims) == 0 {
+			r.Undecide(rule, side.key, c.pos(f.Pos()), "no "+side.prim+" in "+side.fn)
+			continue
+		}
+		ok := false
+		detail := "no comparison with the FlagIndex() result"
+		for _, i := range an.Ifs(f) {
+			cd, cok := an.Classify(i)
+			if !cok || cd.Kind != "eq" {
+				continue
+			}
+			if !(tr.HasOrigin(cd.X, "FlagIndexGetter).FlagIndex") || tr.HasOrigin(cd.Y, "FlagIndexGetter).FlagIndex")) {
+				continue
+			}
+			un := an.Guarded(f, []an.Edge{cd.EdgeWhen(true)}, prims)
+			if len(un) == 0 {
+				ok = true
+				detail = sprintf("%d flags-word access(es) reachable only through the equal edge of the comparison at %s", len(prims), c.pos(i.Cond.Pos()))
+				break
+			}
+			detail = sprintf("flags-word access at %s is reachable without the equal edge of the comparison with FlagIndex() at %s", c.pos(un[0].Pos()), c.pos(i.Cond.Pos()))
+		}
+		r.Check(ok, rule, side.key, c.pos(f.Pos()), detail)
+	}
 }
